@@ -23,7 +23,22 @@ def make_writer(name, opts=None):
     if isinstance(opts.get('default_positioning'), dict):
         from vf import dump
         opts['default_positioning'] = dump.mk_layout(opts['default_positioning'])
+    # the documented order of the writers' parameters is (relativize, video_width, video_height,
+    # fit_to_screen); one configuration in three is passed by position instead of by keyword
+    import hashlib
+    order = ['relativize', 'video_width', 'video_height', 'fit_to_screen']
+    if name not in ('LegacyDFXPWriter', 'SinglePositioningDFXPWriter') and any(k in opts for k in order) \
+            and hashlib.md5(repr(sorted(opts.items(), key=lambda kv: kv[0])).encode()).digest()[0] % 3 == 0:
+        defaults = {'relativize': True, 'video_width': None, 'video_height': None, 'fit_to_screen': True}
+        last = max(i for i, k in enumerate(order) if k in opts)
+        args = [opts.get(k, defaults[k]) for k in order[:last + 1]]
+        rest = {k: v for k, v in opts.items() if k not in order}
+        POSITIONAL[0] += 1
+        return writer_class(name)(*args, **rest)
     return writer_class(name)(**opts)
+
+
+POSITIONAL = [0]        # writers constructed with positional arguments (shown in the evidence of C13)
 
 
 _DFXP_STAMP = re.compile(r'^(\d{2,}):(\d{2}):(\d{2})\.(\d{3})$')
